@@ -274,7 +274,7 @@ def check(ctx, rep):
     funcs = []
     for P in ctx.protocol_classes():
         h = prog.resolve_method(P, "handle")
-        if h is not None and h.cls is P:
+        if h is not None and ctx.owns(P, h):
             funcs.append((h, P))
     partial_op_obligations(ctx, rep, "R20b", funcs, kinds=("P7",))
     # the error text handed to the protocol's error writer must be derived from the error itself
